@@ -240,6 +240,12 @@ pub fn teardown(rng: &mut Rng) -> Case {
     cfg.steps = rng.urange(0, 50);
     cfg.drain = false;
     cfg.inbound_multi_ids = cfg.inbound && rng.coin();
+    if rng.chance(1, 3) {
+        // an executor that honours only the latest waker of a task, and polls that come without
+        // a wake-up: whoever parks on the waker of an earlier poll is never woken again
+        cfg.strict_wakers = true;
+        cfg.spurious = true;
+    }
     let mut g = Gen::new(cfg, rng);
     g.preamble();
     for _ in 0..g.cfg.steps {
@@ -690,6 +696,16 @@ pub fn systematic_framing(thorough: bool) -> Vec<Case> {
         cases.push(sys_case(&run_prefix, &big_stream, vec![c], false, &run_tail, &config));
     }
     cases.push(sys_case(&run_prefix, &big_stream, vec![700; 40], true, &run_tail, &config));
+    // a packet beyond 64 KiB followed back to back by small ones, in socket-sized reads: the
+    // read that completes the large packet also carries the beginning of the next one
+    {
+        let large = msg(vec![b'L'; 70_000], 0, 0);
+        let after = vec![large, msg(b"after".to_vec(), 1, 31), pingresp.clone(), msg(b"more".to_vec(), 0, 0)];
+        let total: usize = after.iter().map(|p| p.len()).sum();
+        for size in [300usize, 400, 511, 1000] {
+            cases.push(sys_case(&run_prefix, &after, vec![size; total / size + 1], false, &run_tail, &config));
+        }
+    }
     // 4-byte remaining length (>= 2 097 152): a few cuts in quick, the full set in thorough
     {
         let huge = msg(vec![b'q'; 2_100_000], 1, 77);
@@ -828,6 +844,11 @@ pub fn maxpacket(rng: &mut Rng) -> Case {
         g.settle();
     } else {
         g.preamble();
+    }
+    if g.rng.chance(1, 3) {
+        // the transport takes only a few bytes per write: "written in full" means all of them
+        let sizes = (0..g.rng.urange(1, 3)).map(|_| g.rng.urange(1, 17)).collect();
+        g.push(Step::WriterSizes { sizes });
     }
     // subscriptions established before the requests under test: a refusal must leave their
     // registrations alone (they get a message each at the end)
@@ -1050,8 +1071,12 @@ pub fn resume_ids(rng: &mut Rng) -> Case {
     let expired = rng.coin();
     cfg.session_expiry = Some(if expired { 0 } else { u32::MAX });
     cfg.connack_session_expiry = None;
-    if rng.chance(1, 3) {
-        cfg.preset_ids = Some((rng.range(1, 40) as u16, rng.range(1, 40) as u32));
+    match rng.below(3) {
+        0 => cfg.preset_ids = Some((rng.range(1, 40) as u16, rng.range(1, 40) as u32)),
+        // the counter wraps during the first connection: identifiers from before and after the
+        // wrap are outstanding when the session is resumed
+        1 => cfg.preset_ids = Some((65_535 - rng.range(0, 6) as u16, rng.range(1, 40) as u32)),
+        _ => {}
     }
     let mut g = Gen::new(cfg, rng);
     g.preamble();
@@ -1125,6 +1150,7 @@ pub fn resume_quota(rng: &mut Rng) -> Case {
     g.push(Step::WriterReady);
     g.push(Step::Deliver { n: usize::MAX });
     g.settle();
+    let mut between: Option<usize> = None;
     if g.rng.chance(1, 3) {
         // lose the connection while a QoS 2 publish is *between its phases*: the context has
         // processed the PUBREC, the caller has not yet been polled to submit the PUBREL
@@ -1133,10 +1159,18 @@ pub fn resume_quota(rng: &mut Rng) -> Case {
             let (op, kind) = recs[g.rng.usize_below(recs.len())];
             g.send_ack(op, kind);
             g.push(Step::Poll(TaskRef::Ctx));
+            between = Some(op);
         }
     }
     let k = if g.rng.coin() { FaultKind::ReadEof } else { FaultKind::ReadErr };
     g.push(Step::Fault(k));
+    if let (Some(op), true, true) = (between, expired, g.rng.coin()) {
+        // its caller gives up before ever submitting the PUBREL; with the session expired
+        // nothing of the exchange may linger (in particular no quota slot)
+        g.push(Step::Poll(TaskRef::Ctx));
+        g.push(Step::CancelOp(op));
+        g.mark_final(op);
+    }
     g.settle();
     let connect = g.connect_spec();
     let elapsed = *g.rng.pick(&[0u64, 5, 100_000]);
@@ -1151,7 +1185,9 @@ pub fn resume_quota(rng: &mut Rng) -> Case {
     }
     // the new connection may announce a larger Receive Maximum, never a smaller one (a broker
     // that lowers it below what is already in flight makes the property unsatisfiable)
-    let r2 = r + g.rng.range(0, 2) as u16;
+    // (one run in six does lower it: nothing is judged about the quota then - see the oracle -
+    // but the client must neither panic nor lose a wake-up over it)
+    let r2 = if g.rng.chance(1, 6) { (r / 2).max(1) } else { r + g.rng.range(0, 2) as u16 };
     g.cfg.receive_max = Some(r2);
     let props = g.connack_props();
     g.broker(BrokerPkt::Connack { session_present: !expired, reason: 0, props });
@@ -1209,9 +1245,30 @@ pub fn resume(rng: &mut Rng) -> Case {
         let secs = g.rng.range(1, 50);
         g.push(Step::AdvanceClock(secs));
     }
-    let connect = g.connect_spec();
-    g.push(Step::Reconnect { elapsed, connect, auths: vec![] });
+    let mut connect = g.connect_spec();
+    // one reconnect in six goes through an extended authentication exchange, so that the
+    // CONNACK of the resumed connection is received by authorize(), not by connect()
+    let rounds = if g.rng.chance(1, 6) { g.rng.urange(1, 2) } else { 0 };
+    let mut auths = vec![];
+    if rounds > 0 {
+        connect.auth_method = Some("SIM".into());
+        connect.auth_data = Some(vec![0]);
+        auths = (0..rounds).map(|i| AuthSpec { reason: Some(0x18), method: Some("SIM".into()), data: Some(vec![i as u8]), user: vec![] }).collect();
+    }
+    g.push(Step::Reconnect { elapsed, connect, auths });
     g.settle();
+    for i in 0..rounds {
+        let props = Props::new().with(pid::AUTH_METHOD, PropVal::Str("SIM".into())).with(pid::AUTH_DATA, PropVal::Bin(vec![100 + i as u8]));
+        g.broker(BrokerPkt::Auth { reason: 0x18, props, form: Form::Full });
+        g.push(Step::Deliver { n: usize::MAX });
+        g.settle();
+    }
+    if g.rng.chance(1, 6) {
+        // the server announces a small Receive Maximum on the resumed connection, possibly below
+        // the number of exchanges the session has in flight: everything unfinished is re-sent
+        // all the same
+        g.cfg.receive_max = Some(g.rng.range(1, 3) as u16);
+    }
     let props = g.connack_props();
     let session_present = g.rng.coin();
     g.broker(BrokerPkt::Connack { session_present, reason: 0, props });
@@ -1729,6 +1786,23 @@ pub fn qos2_resume(rng: &mut Rng) -> Case {
             }
         }
         g.drain();
+        if g.rng.coin() && g.opened_contains(sub) {
+            // a third connection on the same Context, this time without a recorded
+            // disconnection: nothing is reset, the subscription made on the second connection
+            // is still served
+            let k = if g.rng.coin() { FaultKind::ReadEof } else { FaultKind::ReadErr };
+            g.push(Step::Fault(k));
+            g.settle();
+            let connect = g.connect_spec();
+            g.push(Step::Reconnect { elapsed: u64::MAX, connect, auths: vec![] });
+            g.settle();
+            let props = g.connack_props();
+            g.broker(BrokerPkt::Connack { session_present: true, reason: 0, props });
+            g.push(Step::Deliver { n: usize::MAX });
+            g.settle();
+            g.inbound_publish_to(sub);
+            g.flush();
+        }
         return finish_case(g, "inbound/qos2-across-expiry");
     }
     g.cfg.steps = g.rng.urange(3, 25);
